@@ -22,6 +22,7 @@ import json
 import numpy as np
 
 from .data import Data
+from .data_association_enum import DataAssociationEnum
 from .primitive_type_enum import PrimitiveTypeEnum
 
 
@@ -71,9 +72,32 @@ class TextData(Data):
                 f"Input 'values' for {self} must be of type {np.ndarray}  str or None."
             )
 
+        if isinstance(values, np.ndarray) and self.association in (
+            DataAssociationEnum.VERTEX,
+            DataAssociationEnum.CELL,
+        ):
+            values = self.format_length(values)
+
         self._values = values
 
         self.workspace.update_attribute(self, "values")
+
+    def format_length(self, values: np.ndarray) -> np.ndarray:
+        """
+        One entry per vertex or cell: shorter arrays are padded with the no-data
+        value, longer ones are refused.
+        """
+        n_values = self.n_values
+        if n_values is None or values.ndim != 1 or len(values) == n_values:
+            return values
+
+        if len(values) > n_values:
+            raise ValueError(
+                f"Input 'values' of shape({n_values},) expected. "
+                f"Array of shape{values.shape} provided.)"
+            )
+
+        return np.r_[values, [self.nan_value] * (n_values - len(values))]
 
 
 class CommentsData(Data):
